@@ -46,7 +46,7 @@ def explore(rep, module, N, metas="Metas", items="Items", simulate=None, label=N
 def judge_load(case):
     """worker: render, self-check the rendering, load with the real code, compare"""
     from . import realrun
-    s, out, sd = case["s"], case["out"], case["seed"]
+    s, out, sd = absyn.expand_atoms(case["s"]), case["out"], case["seed"]
     rng = random.Random(sd)
     text = absyn.render(s, rng, case.get("layout"))
     res = {"text": text}
